@@ -186,3 +186,72 @@ finalize_section = FunctionContract(
     canary=[("self.current_link = None", "pass"), ("self.force_field.links.append(self.current_link)", "pass")],
 )
 CONTRACTS.append(finalize_section)
+
+
+# ------------------------------------------------------------------ _get_atoms (+ _some_atoms_left): the atoms of a line
+AttrD = TKey('AttrD')
+AtomTok = TTuple(TStr, AttrD)
+
+
+def setup_ga(cx):
+    tokens = cx.box('tokens', TSeq(TStr))
+    cx.spec_env['T0'] = SV(TSeq(TStr), tokens.e)
+    parse = cx.uf('parse_attr', [TStr], AttrD)                       # _parse_atom_attributes(token) (json; may raise ValueError)
+    cx.spec_env['_parse_atom_attributes'] = Builtin(lambda e, t: SV(AttrD, parse(to_z3(t, TStr))), '_parse_atom_attributes')
+    cx.spec_env['EMPTY'] = SV(AttrD, z3.Const('empty_AttrD', AttrD.sort()))
+    return dict(tokens=tokens, natoms=cx.val('natoms', TOpt(TInt)))
+
+
+SPEC_GA = {
+    'brace': "lambda t: t.startswith('{')",
+    # where the token after position p starts an attribute dictionary
+    'has_attr': "lambda p: p + 1 < len(T0) and brace(T0[p + 1])",
+    'width': "lambda p: 2 if has_attr(p) else 1",
+    # the position just after the last atom
+    'endpos': "lambda r: 0 if len(r) == 0 else g_s[len(r) - 1] + width(g_s[len(r) - 1])",
+}
+GA_INV = [
+    "0 <= g_pos and g_pos <= len(T0) and len(tokens) == len(T0) - g_pos",
+    "forall(lambda q: implies(0 <= q and q < len(tokens), tokens[q] == T0[g_pos + q]))",
+    "len(g_s) == len(atoms)",
+    # atom j starts at token g_s[j]; starts are consecutive (an atom takes one token, or two with its attributes)
+    "forall(lambda j: implies(0 <= j and j < len(atoms), 0 <= g_s[j] and g_s[j] < g_pos and T0[g_s[j]] != '--' and not brace(T0[g_s[j]]) and "
+    "   atoms[j][0] == T0[g_s[j]] and atoms[j][1] == (parse_attr(T0[g_s[j] + 1]) if has_attr(g_s[j]) else EMPTY)))",
+    "implies(len(atoms) > 0, g_s[0] == 0 and g_pos == g_s[len(atoms) - 1] + width(g_s[len(atoms) - 1]))",
+    "implies(len(atoms) == 0, g_pos == 0)",
+    "forall(lambda j: implies(0 <= j and j + 1 < len(atoms), g_s[j + 1] == g_s[j] + width(g_s[j])))",
+    "implies(natoms is not None, len(atoms) <= natoms or len(atoms) == 0)",
+]
+get_atoms = FunctionContract(
+    F, '_get_atoms', 'C13', setup=setup_ga, spec_defs=SPEC_GA, spec_env=dict(AttrD=AttrD), modular=False,
+    locals=dict(atoms=TSeq(AtomTok), g_s=TSeq(TInt)), result_ty=TSeq(AtomTok),
+    ghost_at={'entry': "g_pos = 0\ng_s = []"},
+    ensures=[
+        # the atoms are the leading tokens, each with the attribute dictionary that directly follows it (if one does) ...
+        "len(g_s) == len(result)",
+        "forall(lambda j: implies(0 <= j and j < len(result), result[j][0] == T0[g_s[j]] and T0[g_s[j]] != '--' and "
+        "   result[j][1] == (parse_attr(T0[g_s[j] + 1]) if has_attr(g_s[j]) else EMPTY)))",
+        "implies(len(result) > 0, g_s[0] == 0)",
+        "forall(lambda j: implies(0 <= j and j + 1 < len(result), g_s[j + 1] == g_s[j] + width(g_s[j])))",
+        # ... up to the end of the line, the '--' separator (which is consumed, also right after the expected number of
+        # atoms), or the expected number of atoms; what follows is left in `tokens`
+        "0 <= endpos(result) and endpos(result) <= len(T0)",
+        "(endpos(result) == len(T0) and len(tokens) == 0) or "
+        "(endpos(result) < len(T0) and T0[endpos(result)] == '--' and len(tokens) == len(T0) - endpos(result) - 1 and "
+        "   forall(lambda q: implies(0 <= q and q < len(tokens), tokens[q] == T0[endpos(result) + 1 + q]))) or "
+        "(endpos(result) < len(T0) and T0[endpos(result)] != '--' and natoms is not None and len(result) >= natoms and "
+        "   len(tokens) == len(T0) - endpos(result) and "
+        "   forall(lambda q: implies(0 <= q and q < len(tokens), tokens[q] == T0[endpos(result) + q])))",
+        "implies(natoms is not None and natoms >= 1, len(result) <= natoms)",
+    ],
+    raises={'OSError': ["exists(lambda p: 0 <= p and p < len(T0) and brace(T0[p]))"]},
+    modifies=['tokens'],
+    loops={'L1': LoopSpec(inv=GA_INV, modifies=['tokens', 'atoms', 'g_s'], locals=dict(atoms=TSeq(AtomTok), g_s=TSeq(TInt), g_pos=TInt, g_p0=TInt),
+                          decreases="len(tokens)",
+                          ghost_pre="g_p0 = g_pos",
+                          ghost_end="g_s.append(g_p0)\ng_pos = len(T0) - len(tokens)")},
+    canary=[("if tokens and tokens[0] == '--':", "if tokens and tokens[0] == '---':"),
+            ("if next_token.startswith('{'):", "if token.startswith('{'):"),
+            ("if natoms is not None and len(atoms) >= natoms:", "if natoms is not None and len(atoms) > natoms:")],
+)
+CONTRACTS.append(get_atoms)
